@@ -87,8 +87,26 @@ def has_special(s):
 
 
 def text_of(s):
-    """literal text of a part list without specials/placeholders (uninterpreted; defined by the C05 spec)"""
-    return fn("parts.text", parts_sort(), z3.StringSort())(s)
+    """literal text of a part list: str parts verbatim, wildcards as * and ?, placeholders as %name%  (= plain(regex=True) of C05)"""
+    return fn("parts.plain", z3.BoolSort(), parts_sort(), z3.StringSort())(z3.BoolVal(True), s)
+
+
+# ------------------------------------------------------------------ native twins (replay)
+def native_sigma_string(parts):
+    """build a real SigmaString from a model value of Seq(Part) (list of {'ctor':..., 'args': [...]})"""
+    from sigma.types import SigmaString, SpecialChars, Placeholder
+    out = []
+    for p in parts:
+        c = p["ctor"]
+        out.append(p["args"][0] if c == "PStr" else SpecialChars.WILDCARD_MULTI if c == "PWM" else SpecialChars.WILDCARD_SINGLE if c == "PWS" else Placeholder(p["args"][0]))
+    s = SigmaString()
+    s.s = out
+    return s
+
+
+def native_text(parts):
+    from sigma.types import SpecialChars, Placeholder
+    return "".join(p if isinstance(p, str) else "*" if p is SpecialChars.WILDCARD_MULTI else "?" if p is SpecialChars.WILDCARD_SINGLE else f"%{p.name}%" for p in parts)
 
 
 def utf8(t):
@@ -97,3 +115,12 @@ def utf8(t):
 
 def natoms(s):
     return fn("parts.natoms", parts_sort(), z3.IntSort())(s)
+
+
+def part_lists(alphabet=("a", "*", "?", "\\", "\\*", "ä", "%", ""), specials=("PWM", "PWS"), max_len=3, placeholders=()):
+    """all part lists up to max_len over str parts from `alphabet`, special parts and placeholders (model-value form)"""
+    import itertools
+    atoms = [{"ctor": "PStr", "args": [a]} for a in alphabet] + [{"ctor": c, "args": []} for c in specials] + [{"ctor": "PPH", "args": [n]} for n in placeholders]
+    for n in range(max_len + 1):
+        for combo in itertools.product(atoms, repeat=n):
+            yield list(combo)
